@@ -97,6 +97,25 @@ theorem C07_same_value_all_options (c1 c2 : Cfg) (a1 a2 : Bool) (lb1 lb2 : Strin
         (by simp [toJKVs]) (fun k v rest _ ih2 ih3 => by simp [toJKVs, ih2, ih3]) k
   rw [(key c1.fns c2.fns hl).1 t]
 
+/-- **`ensure_ascii=False` leaves non-ASCII characters unescaped**: every code point from U+007F up is
+written as itself -/
+theorem C07_non_ascii_unescaped (c : Nat) (h : 127 ≤ c) : JsonString.escUni c = [c] := by
+  have hs : JsonString.shortEsc c = none := by
+    unfold JsonString.shortEsc
+    repeat' split
+    all_goals first | rfl | (rename_i hc; simp at hc; omega)
+  unfold JsonString.escUni
+  rw [hs]
+  simp only
+  rw [if_neg (by omega)]
+
+theorem C07_unicode_mode_keeps_non_ascii (s : List Nat) (c : Nat) (hc : c ∈ s) (h : 127 ≤ c) :
+    c ∈ JsonString.dumps false s := by
+  unfold JsonString.dumps
+  simp only [Bool.false_eq_true, if_false, List.mem_append, List.mem_flatMap, List.mem_cons,
+    List.not_mem_nil, or_false]
+  exact Or.inl (Or.inr ⟨c, hc, by rw [C07_non_ascii_unescaped c h]; simp⟩)
+
 /-! ### the number texts PyYAML's representers produce are number texts in the parser's sense -/
 
 section numbers
